@@ -1057,7 +1057,7 @@ func checkCopyHelpers(r *Run, cp *packages.Package) {
 					return false
 				}
 				if ret, ok := m.(*ast.ReturnStmt); ok && len(ret.Results) == 1 && bad == token.NoPos {
-					if aliases(ret.Results[0], 0) {
+					if aliases(ret.Results[0], 0) && !knownNilAt(info, fd, ret, ret.Results[0]) {
 						bad = ret.Pos()
 					}
 				}
@@ -1118,4 +1118,53 @@ func walkerRoot(wp *packages.Package, exported, fallback string) string {
 		return true
 	})
 	return name
+}
+
+// knownNilAt: e is an identifier and a condition controlling at says `e == nil`: handing it back hands back nil, which
+// shares nothing.
+func knownNilAt(info *types.Info, fd *ast.FuncDecl, at ast.Node, e ast.Expr) bool {
+	id, ok := ast.Unparen(e).(*ast.Ident)
+	if !ok {
+		return false
+	}
+	obj := info.Uses[id]
+	var holds func(c ast.Expr, neg bool) bool
+	holds = func(c ast.Expr, neg bool) bool {
+		c = ast.Unparen(c)
+		switch t := c.(type) {
+		case *ast.UnaryExpr:
+			if t.Op == token.NOT {
+				return holds(t.X, !neg)
+			}
+		case *ast.BinaryExpr:
+			if (t.Op == token.LAND && !neg) || (t.Op == token.LOR && neg) {
+				return holds(t.X, neg) || holds(t.Y, neg)
+			}
+			op := t.Op
+			if neg {
+				switch op {
+				case token.EQL:
+					op = token.NEQ
+				case token.NEQ:
+					op = token.EQL
+				}
+			}
+			if op != token.EQL {
+				return false
+			}
+			a, b := ast.Unparen(t.X), ast.Unparen(t.Y)
+			if isNilIdent(info, a) {
+				a, b = b, a
+			}
+			aid, isID := a.(*ast.Ident)
+			return isID && isNilIdent(info, b) && info.Uses[aid] == obj
+		}
+		return false
+	}
+	for _, l := range controlConds(fd.Body, at) {
+		if holds(l.Expr, l.Neg) {
+			return true
+		}
+	}
+	return false
 }
